@@ -14,6 +14,7 @@ import Qvnt.Model.OpExpr
 import Qvnt.Spec.Denote
 import Qvnt.Spec.Dft
 import Qvnt.Model.Interp
+import Qvnt.Spec.RefSem
 
 open Qvnt
 
@@ -193,6 +194,10 @@ structure DSt where
   snap : List String := []
   lastFinish : Array (Cx Float) × String := (#[], "")
   marks : List (String × (Array (Cx Float) × String)) := []
+  /-- nodes of the chunks the implementation accepted in this session (SPEC side) -/
+  progNodes : List (Node Float) := []
+  /-- the simulator was created / reset just before (so a finish starts from |0…0>) -/
+  symFresh : Bool := false
 
 structure Report where
   msgs : Array String := #[]
@@ -855,7 +860,7 @@ def stepInt (st : DSt) (r : Report) (ln : Nat) (cmd obs : Toks) : Option (DSt ×
   match cmd with
   | ["inew"] =>
     let int : Interp Float := {}
-    some ({ st with int := some int, sym := none, lastSummary := obs }, cmpSummary r st ln "inew" int obs)
+    some ({ st with int := some int, sym := none, lastSummary := obs, progNodes := [] }, cmpSummary r st ln "inew" int obs)
   | ["ixor"] => do
     let int ← st.int
     let int := int.xor
@@ -889,7 +894,18 @@ def stepInt (st : DSt) (r : Report) (ln : Nat) (cmd obs : Toks) : Option (DSt ×
         let impl := (parseCVec pv).map (·.1) |>.getD #[]
         -- C05 on executed programs: the final state is a valid state
         let r := if what == "finish" then specValid r st ln s'.qReg.qNum impl else r
-        some ({ st with sym := some s', lastFinish := (impl, s!"{v} {n}") }, r)
+        -- SPEC (C10/C11): statement-by-statement reference execution of the accepted program
+        let r :=
+          if what == "finish" && st.symFresh then
+            match Spec.refRun st.progNodes int.mOp draws with
+            | some rs =>
+              let r := specCheck r st ln "refsem.creg" (s!"{rs.c.value} {rs.c.qNum}" == s!"{v} {n}")
+                s!"{rs.c.value} {rs.c.qNum}" s!"{v} {n}"
+              specCheck r st ln "refsem.psi" (closeVec rs.q.psi impl) (firstDiff rs.q.psi impl) (showVec impl)
+            | none => specCheck r st ln "refsem.run" false "executable program" "reference semantics rejects it"
+          else r
+        some ({ st with sym := some s', lastFinish := (impl, s!"{v} {n}"),
+                        symFresh := what == "new" || what == "reset" }, r)
       | none, _ => some (st, r.mismatch st ln ("isym." ++ what) "enough-draws" (String.intercalate " " (obs.take 6)))
       | _, _ => some (st, r.mismatch st ln ("isym." ++ what) "creg v n psi …" (String.intercalate " " (o.take 4)))
     | _ => some (st, r.mismatch st ln ("isym." ++ what) "draws …" (String.intercalate " " (obs.take 4)))
@@ -910,9 +926,58 @@ def stepInt (st : DSt) (r : Report) (ln : Nat) (cmd obs : Toks) : Option (DSt ×
                     else if implPanicked obs then "panic" else String.intercalate " " obs
     let modelHead := if model.startsWith "panic" then "panic" else model
     let r := if modelHead == implHead then r else r.mismatch st ln "igate" modelHead implHead
-    let r := match probe, (if obs.head? == some "ok" then parseCVec (obs.drop 3) else none) with
-      | some pv, some (iv, _) => if closeVec pv iv then r else r.mismatch st ln "igate.probe" (firstDiff pv iv) (showVec iv)
+    let implVec := if obs.head? == some "ok" then (parseCVec (obs.drop 3)).map (·.1) else none
+    let r := match probe, implVec with
+      | some pv, some iv => if closeVec pv iv then r else r.mismatch st ln "igate.probe" (firstDiff pv iv) (showVec iv)
       | _, _ => r
+    -- SPEC (C09): the qelib1.inc definition of the name (lower-cased), single-qubit arguments
+    let lname := String.ofList (name.toList.map Char.toLower)
+    let singles := regs.all (fun m => popcount m == 1) && regs.eraseDups.length == regs.length
+    let r :=
+      match (if singles then Spec.qelib (R := Float) lname args regs else none), implVec with
+      | some gs, some iv =>
+        let want := specApply gs (probeState nq)
+        let r := { r with speclines := r.speclines + 1 }
+        if closeUpToPhase want iv then r else r.specfail st ln "c09.qelib" (showVec want) (showVec iv)
+      | some _, none =>
+        specCheck r st ln "c09.accept" false "accepted (a qelib1.inc gate on distinct qubits)" (String.intercalate " " (obs.take 3))
+      | none, _ => r
+    -- SPEC (C09): extensions and any further leading c: the library's documented matrix of the
+    -- stem, controlled by the leading arguments
+    let r := match implVec with
+      | some iv =>
+        let stem := lname.toList.dropWhile (· == 'c')
+        let k := lname.length - stem.length
+        let stemS := String.ofList stem
+        if singles && (Spec.qelib (R := Float) lname args regs).isNone && regs.length > k then
+          let ctrl := (regs.take k).foldl (· ||| ·) 0
+          let tgt := (regs.drop k).foldl (· ||| ·) 0
+          let e? : Option (OpExpr Float) :=
+            match stemS, args with
+            | "x", [] => some (.g1 .x tgt) | "y", [] => some (.g1 .y tgt) | "z", [] => some (.g1 .z tgt)
+            | "s", [] => some (.g1 .s tgt) | "t", [] => some (.g1 .t tgt) | "h", [] => some (.g1 .h tgt)
+            | "sdg", [] => some (.dgr (.g1 .s tgt)) | "tdg", [] => some (.dgr (.g1 .t tgt))
+            | "rx", [a] => some (.rot1 .rx (halfPhase a) tgt) | "ry", [a] => some (.rot1 .ry (halfPhase a) tgt)
+            | "rz", [a] => some (.rot1 .rz (halfPhase a) tgt) | "u1", [a] => some (.rot1 .u1 (halfPhase a) tgt)
+            | "rxx", [a] => some (.rot2 .rxx (halfPhase a) tgt) | "ryy", [a] => some (.rot2 .ryy (halfPhase a) tgt)
+            | "rzz", [a] => some (.rot2 .rzz (halfPhase a) tgt)
+            | "swap", [] => some (.two .swap tgt) | "sqrt_swap", [] => some (.two .sqrtSwap tgt)
+            | "i_swap", [] => some (.two .iSwap tgt) | "sqrt_i_swap", [] => some (.two .sqrtISwap tgt)
+            | "u2", [p, l] => some (.u3 (halfPhase fracPi2) (halfPhase p) (halfPhase l) tgt)
+            | "u3", [t, p, l] => some (.u3 (halfPhase t) (halfPhase p) (halfPhase l) tgt)
+            | "qft", [] => some (.qft tgt)
+            | _, _ => none
+          match e? with
+          | some e =>
+            (match Spec.denote qftPhase (if k == 0 then e else .c ctrl e) with
+             | .ok gs _ =>
+               let want := specApply gs (probeState nq)
+               let r := { r with speclines := r.speclines + 1 }
+               if closeUpToPhase want iv then r else r.specfail st ln "c09.doc" (showVec want) (showVec iv)
+             | _ => r)
+          | none => r
+        else r
+      | none => r
     some (st, r)
   | "iexpect" :: what =>
     let res := st.lastRes
@@ -956,7 +1021,8 @@ def stepInt (st : DSt) (r : Report) (ln : Nat) (cmd obs : Toks) : Option (DSt ×
             let implRes := String.intercalate " " res
             let r := if model == implRes then r else r.mismatch st ln (c ++ ".result") model implRes
             let r := cmpSummary r st ln c int' summary
-            some ({ st with int := some int', lastRes := implRes, lastSummary := summary }, r)
+            let prog := if implRes == "ok" then st.progNodes ++ nodes else st.progNodes
+            some ({ st with int := some int', lastRes := implRes, lastSummary := summary, progNodes := prog }, r)
           | _ => some (st, r.mismatch st ln c "decodable-ast" (String.intercalate " " (nodeToks.take 12)))
         | _ => some (st, r.mismatch st ln c "nodes ;; result ;; summary" (String.intercalate " " (obs.take 6)))
       | _ =>
